@@ -74,13 +74,15 @@ def boot_code(root):
     return BOOT % (os.path.join(root, 'src'), os.path.join(root, 'src', 'calmjs'))
 
 
-def run_optimize(root, args=('--build',)):
+def run_optimize(root, args=('--build',), env_extra=None):
     """Run the project's own table generator inside the copy."""
     code = boot_code(root) + (
         "import runpy; sys.argv = ['optimize'] + %r;"
         "runpy.run_module('calmjs.parse.parsers.optimize', run_name='__main__')"
         % (list(args),))
-    p = subprocess.run([sys.executable, '-c', code], env=child_env(root),
+    env = child_env(root)
+    env.update(env_extra or {})
+    p = subprocess.run([sys.executable, '-c', code], env=env,
                        capture_output=True, text=True, timeout=300)
     tabs = [f for f in os.listdir(os.path.join(root, 'src', 'calmjs', 'parse', 'parsers'))
             if f.startswith(('lextab_', 'yacctab_'))]
